@@ -262,7 +262,17 @@ def c16(cx):
     trace, crash = play(cx, b, "sched", cmd="sched")
     rejected = [] if crash else validate(cx, trace, "Trace_PgServer")
     judge(cx, b, trace, rejected, crash, "Trace_PgServer", play_cmd="sched")
-    count_distinct(cx, b)
+    files = [b]
+    if not thorough:
+        # two connections (both may be inside a handler while Close waits) with one Close call: the quick tier's share
+        # of what the thorough tier does with two callers
+        b2 = model_check(cx, "MC_C16", cfg="MC_C16_sched.cfg", consts={"Closers": '{"k1"}', "Conns": '{"c1", "c2"}'})
+        subsample(cx, b2, 1500)
+        trace, crash = play(cx, b2, "sched2", cmd="sched")
+        rejected = [] if crash else validate(cx, trace, "Trace_PgServer")
+        judge(cx, b2, trace, rejected, crash, "Trace_PgServer", play_cmd="sched")
+        files.append(b2)
+    count_distinct(cx, *files)
     cx.cov["trusted_base"] = TB_SRV
     return finish(cx, "model_checking",
                   "TLC checks on PgServer (one action per hook point of Close and of command admission): no double "
